@@ -525,8 +525,16 @@ theorem generateGraph_spec (lv : Level) (n k : Nat) (hg : GoodLevel lv n k) (hwf
       ∀ j z, j < inner.length → (z ∈ mem lv' j ↔ ∃ x ∈ (inner[j]?).getD [], z ∈ mem lv x) := by
   obtain ⟨_, he⟩ := Store.wf_inv hwf
   obtain ⟨w0, sp0, nv0⟩ := g0_ok { lv.g.specs with selfLoops := true, dedupe := .keepLast } inner.length
+  have hall : (inner.all fun part => part.all fun x => (lv.g.getNode x).isSome) = true := by
+    rw [List.all_eq_true]
+    intro part hpart
+    rw [List.all_eq_true]
+    intro x hx
+    have hxn : x ∈ lv.g.names := (hg.names_iff x).2 ((hin.2.2 x).1 (List.mem_flatMap.2 ⟨part, hpart, hx⟩))
+    exact (C02.hasNode_mem (C02.nodesP_of lv.g (C09M.wf_parts lv.g hwf).1) x).2 hxn
   unfold generateGraph
   simp only [bind]
+  rw [if_pos hall, bind_ok]
   refine bind_fold_exists
     (fun g : Store => g.wf = true ∧ g.specs = { lv.g.specs with selfLoops := true, dedupe := .keepLast } ∧
       g.nodesVec = (List.range inner.length).map fun i => (⟨i, none⟩ : Node))
